@@ -158,7 +158,10 @@ def job_rank(res, n, typ, first):
         else: spec = 1 - z3.ToReal(6 * z3.Sum([(rk(Zx, i) - rk(Zy, i)) * (rk(Zx, i) - rk(Zy, i)) for i in range(n)])) / (n * (n * n - 1))
         tol = z3.RealVal(Fraction(1, 10 ** 12))
         sol = z3.Solver(); sol.add(*p.m.pc); sol.add(z3.Or(r - spec > tol, spec - r > tol)); c = timed_check(sol, res)
+        if c == z3.unknown:
+            sol.set('timeout', 300000); c = sol.check()
         if c == z3.unsat: res.ob(True, 'LRA/NIA', f'{["", "spearman", "kendall"][typ]} n={n} path: value equals the O(n^2) definition for every pair of orderings on the path')
+        elif c == z3.unknown: res.inc(f'rank correlation n={n}: query undecided')
         else:
             mdl = model_dict(sol) if c == z3.sat else {}
             xv = fvals(mdl, n, 'x'); yv = fvals(mdl, n, 'y')
@@ -210,7 +213,7 @@ def main(tier, seed):
     for order, nx in ([(3, 4), (4, 4), (5, 5)] if q else [(3, 5), (4, 5), (5, 6), (6, 6)]):
         for f in range(nx):
             jobs.append((f'MedianFilter order={order} nx={nx} r0={f}', 'medflt', dict(kind='stream', order=order, nx=nx, first=f), 2400))
-        jobs.append((f'MedianFilter frames order={order}', 'medflt', dict(kind='frames', order=order, nx=min(nx, 4), n1=1), 2400))
+        jobs.append((f'MedianFilter 3 frames order={order}', 'medflt', dict(kind='frames', order=order, nx=min(nx, 4), n1=1), 2400)); jobs.append((f'MedianFilter 3 frames(2) order={order}', 'medflt', dict(kind='frames', order=order, nx=min(nx, 4), n1=2), 2400))
     for order, nx in ([(3, 4), (4, 4)] if q else [(3, 5), (4, 5), (5, 5)]):
         jobs.append((f'medfilt fn order={order} nx={nx}', 'medflt', dict(kind='fn', order=order, nx=nx), 2400))
     for typ in (1, 2):
